@@ -9,7 +9,9 @@ was a DISCONNECT, bystanders stay alive, Server.Close returns, no goroutine of t
 namespace Mqtt.Spec.Lifecycle
 
 /-- causes of connection end the scenarios know -/
-def causes : List String := ["disconnect", "close", "protoerr", "oversize", "keepalive", "srvclose", "halfclose"]
+def causes : List String := ["disconnect", "close", "protoerr", "oversize", "keepalive", "srvclose", "halfclose", "badfull"]
+-- "badfull": an illegal packet of exactly the ring size - the connection is ended by the broker's processor while
+-- the incoming ring is completely full (the receiver waits for room, no read pending)
 -- "halfclose": the peer shuts down its sending direction only (TCP FIN) and neither reads nor closes.
 -- The broker has read end-of-stream: the connection has ended, and the property demands the same
 -- complete teardown as for a full close.
